@@ -41,6 +41,27 @@ func C06(c *Ctx) {
 	r.Rule("C06/R5", "restart leads collected/cancelled -> idle and is issued by the node on the collected path", 4)
 	r.Rule("C06/R6", "a stale deadline cannot cancel a batch before t contributions arrived (shared with C07/R4)", 1)
 	c07DeadlineAs(c, "C06/R6")
+	r.Rule("C06/R7", "whether a contribution (or a failure report) counts does not depend on time stamps: the two receiving callbacks branch on no value derived from a time.Time", 2)
+	for _, ev := range []string{evPartialSign, evPartialSignError} {
+		cb := m.Callbacks[ev]
+		if cb == nil {
+			continue
+		}
+		isTime := func(v ssa.Value) bool {
+			t := v.Type().String()
+			return t == "time.Time" || t == "*time.Time" || t == "time.Duration"
+		}
+		bad := ""
+		for _, cd := range ssax.Conds(cb) {
+			for _, x := range []ssa.Value{cd.X, cd.Y} {
+				if x != nil && x.Type().String() != "error" && derivesFrom(x, isTime, 0, map[ssa.Value]bool{}) {
+					bad = c.PosOf(cd.If)
+				}
+			}
+		}
+		r.Check(bad == "", "C06/R7", "signing_proposal_fsm:"+ev+":time-independent", "no branch of the receiving callback depends on a time stamp", c.Pos(cb.Pos()),
+			"the branch at "+bad+" compares time stamps (the answer's with the batch's, or with a clock): answers are stamped by the answering participant's own clock, a participant a few seconds behind the proposer delivers valid contributions that every node refuses — t distinct deliveries no longer start the reconstruction")
+	}
 
 	kConf, ok1 := c.internalConst("C06/R1", "SigningPartialSignsConfirmed")
 	kErr, ok2 := c.internalConst("C06/R4", "SigningError")
